@@ -1,6 +1,7 @@
 package props
 
 import (
+	"go/types"
 	"fmt"
 	"go/token"
 	"strings"
@@ -828,6 +829,87 @@ func C19(c *core.Ctx) {
 		}
 		c.Decide(len(muts) >= 2 && bad == "", "R19.9", "apply-reports-every-change", p.Pos(ap.Pos()), fmt.Sprintf("%d mutations of a prefix set; the value returned after each is the constant true", len(muts)), "PrefixTable.Apply does not report a change it made ("+bad+"): the installer is not triggered, and routes for prefixes that the router withdrew (a snapshot that resets its set to nothing) stay installed")
 		c.Floor("R19.9", "mutations of a prefix set in Apply", len(muts), 2)
+	}
+
+	// ---- R19.10 next-hop lists collected per prefix do not share storage. fibUpdate gathers,
+	// per prefix, the next hops of every exit router by appending to the list kept in a map:
+	// a list that was put into the map as it was handed in (not as the result of an append or
+	// a copy) shares its backing array with the caller's slice — which is registered under
+	// every prefix of that exit router — so appending the next hops of a second exit router to
+	// one prefix overwrites the spare capacity under another prefix's list.
+	if fu := c.Fn("R19.10", "dv/dv", "Router", "fibUpdate"); fu != nil {
+		type mapUse struct {
+			appendsTo bool
+			stores    []ssa.Instruction
+		}
+		uses := map[ssa.Value]*mapUse{}
+		rootOf := func(m ssa.Value) ssa.Value {
+			m = core.Strip(m)
+			if u, ok := m.(*ssa.UnOp); ok { // a captured map: load of the free variable / cell
+				return u.X
+			}
+			return m
+		}
+		core.InstrsDeep(fu, func(in ssa.Instruction) {
+			if cl, ok := isBuiltinCall(in, "append"); ok && len(cl.Call.Args) >= 1 {
+				base := core.Strip(cl.Call.Args[0])
+				if ex, isEx := base.(*ssa.Extract); isEx {
+					base = ex.Tuple
+				}
+				if lk, isLk := base.(*ssa.Lookup); isLk {
+					if _, isMap := lk.X.Type().Underlying().(*types.Map); isMap {
+						r := rootOf(lk.X)
+						if uses[r] == nil {
+							uses[r] = &mapUse{}
+						}
+						uses[r].appendsTo = true
+					}
+				}
+			}
+			if mu, ok := in.(*ssa.MapUpdate); ok {
+				if mt, isMap := mu.Map.Type().Underlying().(*types.Map); isMap {
+					if _, isSl := mt.Elem().Underlying().(*types.Slice); isSl {
+						r := rootOf(mu.Map)
+						if uses[r] == nil {
+							uses[r] = &mapUse{}
+						}
+						uses[r].stores = append(uses[r].stores, in)
+					}
+				}
+			}
+		})
+		nMaps := 0
+		bad := ""
+		for _, u := range uses {
+			if !u.appendsTo {
+				continue
+			}
+			nMaps++
+			for _, st := range u.stores {
+				v := core.Strip(st.(*ssa.MapUpdate).Value)
+				owned := false
+				switch x := v.(type) {
+				case *ssa.Call:
+					if b, isB := x.Call.Value.(*ssa.Builtin); isB && b.Name() == "append" {
+						owned = true
+					}
+					if id, okID := core.Callee(&x.Call); okID && (id.Name == "Clone" || id.Name == "Clip") {
+						owned = true
+					}
+				case *ssa.MakeSlice, *ssa.Const:
+					owned = true
+				case *ssa.Slice:
+					if x.Max != nil {
+						owned = true
+					}
+				}
+				if !owned {
+					bad = c.Pos(st)
+				}
+			}
+		}
+		c.Decide(bad == "", "R19.10", "collected-next-hops-own-their-storage", p.Pos(fu.Pos()), fmt.Sprintf("%d map(s) of lists that are appended to; every list stored is the result of an append or a copy", nMaps), "fibUpdate puts a next-hop list into its per-prefix map as it was handed in (at "+bad+") and appends to the lists of that map later: the list shares its backing array with the slice the caller registers under every prefix of the same exit router, so the next hops appended for one multi-homed prefix overwrite those of another — routes are installed to faces of the wrong exit router")
+		c.Floor("R19.10", "maps of next-hop lists that fibUpdate appends to", nMaps, 1)
 	}
 
 	// ---- R19.8 the prefix table and the route installer identify a prefix by its name. They
